@@ -11,7 +11,10 @@ open GocoinV.Gen.Field5x52
 
 theorem sqrN_S (n : Nat) : ∀ {x : Fe} {v : F}, FeS x 1 v → FeS (sqrN n x) 1 (v ^ (2 ^ n)) := by
   induction n with
-  | zero => intro x v h; simpa [sqrN] using h
+  | zero =>
+    intro x v h
+    show FeS x 1 (v ^ 2 ^ 0)
+    rw [pow_zero, pow_one]; exact h
   | succ k ih =>
     intro x v h
     have h2 := ih (h.sqr (by decide))
@@ -84,7 +87,8 @@ theorem inv_S (a : Fe) (m : Nat) (ha : a.mag m) (hm : m ≤ 8) : FeS (inv a) 1 (
 /-- if a is a square in F_p then `Field.Sqrt(a)` is one of its square roots -/
 theorem sqrt_sq (v r : F) (h : r * r = v) : (v ^ ((P + 1) / 4)) * (v ^ ((P + 1) / 4)) = v := by
   by_cases hr : r = 0
-  · subst hr; rw [← h]; simp
+  · subst hr
+    rw [← h, mul_zero, zero_pow (by decide), mul_zero]
   · have h1 : r ^ (P - 1) = 1 := ZMod.pow_card_sub_one_eq_one hr
     rw [← pow_add, ← h, ← pow_two, ← pow_mul]
     have e : 2 * ((P + 1) / 4 + (P + 1) / 4) = (P - 1) + 2 := by decide
